@@ -146,6 +146,7 @@ pub fn gen_config(rng: &mut Rng) -> J {
         "allow_ignored_dimensions": rng.chance(0.3),
         "log_group": if rng.chance(0.3) { json!("my/log group") } else { J::Null },
         "sampled": rng.chance(0.3),
+        "extra_directive": rng.chance(0.25),
     })
 }
 
@@ -165,6 +166,17 @@ pub fn build_emf(cfg: &J) -> Emf {
     }
     if let Some(lg) = cfg.get("log_group").and_then(|x| x.as_str()) {
         b = b.log_group_name(lg.to_string());
+    }
+    if jb(cfg, "extra_directive", false) {
+        use metrique_writer_format_emf::{MetricDefinition, MetricDirective, StorageResolution};
+        b = b.directive(MetricDirective {
+            dimensions: vec![vec!["az"], vec![]],
+            metrics: vec![
+                MetricDefinition { name: "Extra", unit: Unit::Count, storage_resolution: None },
+                MetricDefinition { name: "ExtraFast", unit: Unit::Second(NegativeScale::Milli), storage_resolution: Some(StorageResolution::Second) },
+            ],
+            namespace: "ExtraNs",
+        });
     }
     b.build()
 }
